@@ -37,6 +37,7 @@ class Effects:
         self.mut: Dict[str, Set[Effect]] = {}
         self.why: Dict[Tuple[str, Effect], str] = {}
         self._alias_accessor: Dict[str, Optional[Tuple[str, ...]]] = {}
+        self.sites: Dict[Tuple[str, Effect], list] = {}  # (function, effect) -> [(FuncInfo, statement)] where the store is written
         self._solve()
 
     # ------------------------------------------------------------------ roots
@@ -98,6 +99,9 @@ class Effects:
                 return R(fi, base, at, path, depth - 1) if base is not None else []
             if fname in ("items", "values", "keys") and isinstance(f, ast.Attribute) and not e.args:
                 return R(fi, f.value, at, path, depth - 1)
+            if fname == "copy" and e.args and path and path[0] != "[]" and not path[0].startswith("<"):
+                # copy.copy(obj): a new object whose fields are the very objects the original's fields hold
+                return R(fi, e.args[0], at, path, depth - 1)
             if fname in ("enumerate", "zip", "reversed", "sorted", "list", "tuple", "copy", "iter", "set") and e.args:
                 # fresh container / iterator of shared elements
                 if path and path[0] == "[]":
@@ -109,11 +113,20 @@ class Effects:
             if fname in FRESH_CALLS:
                 return []
             if isinstance(f, ast.Attribute):
+                out = []
+                hit = False
                 for tg in self.eng.resolve_call(fi, e):
                     if isinstance(tg, FuncInfo):
-                        ap = self.alias_accessor(tg)
-                        if ap is not None:
-                            return R(fi, f.value, at, ap + path, depth - 1)
+                        for ap in self.alias_paths(tg):
+                            hit = True
+                            if ap and ap[0] == "<shallow>":
+                                # the callee hands out a shallow copy: only what lies below a field of it is shared
+                                if path and path[0] != "[]" and not path[0].startswith("<"):
+                                    out += R(fi, f.value, at, ap[1:] + path, depth - 1)
+                            else:
+                                out += R(fi, f.value, at, ap + path, depth - 1)
+                if hit:
+                    return out
                 if fname in ("get", "pop", "setdefault") and path is not None:
                     return R(fi, f.value, at, ("[]",) + path, depth - 1)
             return []
@@ -136,7 +149,50 @@ class Effects:
                 return out
             f = f.parent
             first = False
-        return []
+        g = self.global_root(fi, name)
+        return [(g, path)] if g else []
+
+    # ------------------------------------------------------------------ module-level state
+    def module_state(self, mod) -> Dict[str, ast.AST]:
+        """Module-level names that can hold state surviving a call: bound to a mutable value at module level, or
+        re-bound from inside a function through a `global` declaration."""
+        cache = self.__dict__.setdefault("_module_state", {})
+        if mod.name in cache:
+            return cache[mod.name]
+        out: Dict[str, ast.AST] = {}
+        declared_global = set()
+        for n in ast.walk(mod.tree):
+            if isinstance(n, ast.Global):
+                declared_global.update(n.names)
+        for st in mod.tree.body:
+            tgs = []
+            if isinstance(st, ast.Assign):
+                tgs, v = st.targets, st.value
+            elif isinstance(st, ast.AnnAssign) and st.value is not None:
+                tgs, v = [st.target], st.value
+            for t in tgs:
+                if not isinstance(t, ast.Name):
+                    continue
+                mutable = isinstance(v, (ast.List, ast.Dict, ast.Set, ast.ListComp, ast.DictComp, ast.SetComp)) or (
+                    isinstance(v, ast.Call) and _call_name(v) in ("list", "dict", "set", "defaultdict", "OrderedDict", "deque", "Counter", "WeakKeyDictionary", "WeakValueDictionary",
+                                                                  "zeros", "ones", "empty", "array", "lru_cache"))
+                if mutable or t.id in declared_global:
+                    out[t.id] = st
+        cache[mod.name] = out
+        return out
+
+    def global_root(self, fi: FuncInfo, name: str) -> Optional[str]:
+        mod = fi.module
+        if name in self.module_state(mod):
+            return f"@{mod.name}.{name}"
+        r = self.eng.prog.resolve_name(mod, name)
+        if isinstance(r, tuple) and r and r[0] == "global" and r[1] in self.eng.prog.modules:
+            tm = self.eng.prog.modules[r[1]]
+            if r[2] in self.module_state(tm):
+                return f"@{tm.name}.{r[2]}"
+        if isinstance(r, ClassInfo):
+            return f"@class.{r.name}"
+        return None
 
     def _roots_def(self, fi: FuncInfo, d, path, depth, use_at=None) -> List[Effect]:
         flow = self.eng.flow(fi)
@@ -210,6 +266,67 @@ class Effects:
             return key if "::" in key else (key if owner is user else f"{owner.qualname}::{key}")
         return f"{owner.qualname}::{key}"
 
+    def alias_paths(self, fi: FuncInfo) -> List[Tuple[str, ...]]:
+        """May-alias summary of a method / property: every access path below `self` that some `return` hands out
+        without a copy (`return self` gives the empty path)."""
+        q = fi.qualname
+        cache = self.__dict__.setdefault("_alias_paths", {})
+        if q in cache:
+            return cache[q]
+        cache[q] = []
+        out = set()
+        try:
+            flow = self.eng.flow(fi)
+        except AnalysisError:
+            return []
+        if "self" not in fi.params:
+            return []
+
+        def paths_of(t, acc):
+            if is_mark(t, "phi"):
+                for a in t.args:
+                    paths_of(a, acc)
+                return
+            if isinstance(t, ast.Call) and _call_name(t) == "copy" and len(t.args) == 1 and not t.keywords:
+                inner = set()
+                paths_of(t.args[0], inner)
+                for q0 in inner:
+                    if not (q0 and q0[0] == "<shallow>"):
+                        acc.add(("<shallow>",) + q0)
+                return
+            p = []
+            x = t
+            while isinstance(x, (ast.Attribute, ast.Subscript)):
+                if isinstance(x, ast.Subscript):
+                    if isinstance(x.slice, ast.Slice):
+                        return
+                    p.append("[]")
+                else:
+                    p.append(x.attr)
+                x = x.value
+            if isinstance(x, ast.Name) and x.id == "self":
+                acc.add(tuple(reversed(p)))
+            elif isinstance(x, ast.Call) and isinstance(x.func, ast.Attribute) and x is not t and False:
+                pass
+            elif isinstance(x, ast.Call) and isinstance(x.func, ast.Attribute) and x.func.attr in ("get", "setdefault", "pop") :
+                # d.get(k) hands out the stored element
+                y = x.func.value
+                q_ = ["[]"]
+                while isinstance(y, (ast.Attribute, ast.Subscript)):
+                    q_.append("[]" if isinstance(y, ast.Subscript) else y.attr)
+                    y = y.value
+                if isinstance(y, ast.Name) and y.id == "self":
+                    acc.add(tuple(reversed(q_)) + tuple(reversed(p)))
+
+        for r in [n for n in own_nodes(fi.node) if isinstance(n, ast.Return) and n.value is not None]:
+            try:
+                t = flow.expand(r.value, flow.cfg.node_of(r), depth=6)
+            except AnalysisError:
+                continue
+            paths_of(t, out)
+        cache[q] = sorted(out)
+        return cache[q]
+
     def alias_accessor(self, fi: FuncInfo) -> Optional[Tuple[str, ...]]:
         """Method/property whose every return value is `self.<attrs>` (no copy): returns the path."""
         q = fi.qualname
@@ -246,9 +363,24 @@ class Effects:
             except AnalysisError:
                 return
             for root, path in self.roots(fi, obj_expr, at):
-                out.append(((root, path + tuple(extra_path)), f"{fi.module.relpath}:{node.lineno} {what}"))
+                eff = (root, path + tuple(extra_path))
+                out.append((eff, f"{fi.module.relpath}:{node.lineno} {what}"))
+                self.sites.setdefault((fi.qualname, eff), []).append((fi, node))
 
+        declared_global = set()
         for n in own_nodes(fi.node):
+            if isinstance(n, ast.Global):
+                declared_global.update(n.names)
+        for n in own_nodes(fi.node):
+            if isinstance(n, (ast.Assign, ast.AugAssign, ast.AnnAssign)) and declared_global:
+                tg_ = n.targets if isinstance(n, ast.Assign) else [n.target]
+                for t in tg_:
+                    for x in ([t] if isinstance(t, ast.Name) else (list(t.elts) if isinstance(t, (ast.Tuple, ast.List)) else [])):
+                        if isinstance(x, ast.Name) and x.id in declared_global:
+                            g = self.global_root(fi, x.id) or f"@{fi.module.name}.{x.id}"
+                            eff = (g, ())
+                            out.append((eff, f"{fi.module.relpath}:{n.lineno} module-level `{x.id}` re-bound"))
+                            self.sites.setdefault((fi.qualname, eff), []).append((fi, n))
             if isinstance(n, (ast.Assign, ast.AugAssign, ast.AnnAssign, ast.Delete)):
                 tgs = n.targets if isinstance(n, (ast.Assign, ast.Delete)) else [n.target]
                 flat = []
@@ -328,6 +460,14 @@ class Effects:
                 except AnalysisError:
                     continue
                 for (pname, path) in list(cm):
+                    if pname.startswith("@"):
+                        eff = (pname, path)
+                        if eff not in self.mut[fi.qualname]:
+                            self.mut[fi.qualname].add(eff)
+                            self.why.setdefault((fi.qualname, eff), f"via {callee.qualname} ← {self.why.get((callee.qualname, eff), '?')}")
+                            self.sites.setdefault((fi.qualname, eff), list(self.sites.get((callee.qualname, eff), [])))
+                            changed = True
+                        continue
                     if "::" in pname:
                         # effect on a closure variable of an enclosing function of the callee
                         owner_q, var = pname.split("::", 1)
@@ -345,13 +485,14 @@ class Effects:
                         arg = self._bind(callee, node, pname, ctor)
                         if arg is None:
                             continue
-                        effs = [(r, p + tuple(path)) for r, p in self.roots(fi, arg, at)]
+                        effs = [(r, p + tuple(path[-1:])) for r, p in self.roots(fi, arg, at, tuple(path[:-1]))]  # path[:-1] leads to the mutated object, path[-1] is the slot written
                     for eff in effs:
                         if len(eff[1]) > 8:
                             eff = (eff[0], eff[1][:4] + ("…",) + eff[1][-3:])
                         if eff not in self.mut[fi.qualname]:
                             self.mut[fi.qualname].add(eff)
                             self.why.setdefault((fi.qualname, eff), f"via {callee.qualname} ← {self.why.get((callee.qualname, (pname, path)), '?')}")
+                            self.sites.setdefault((fi.qualname, eff), list(self.sites.get((callee.qualname, (pname, path)), [])))
                             changed = True
             # closures: a nested function's effects on its parent's variables are effects of the parent when it calls it
             # (handled through the '::' keys above)
